@@ -68,7 +68,8 @@ def fanout_subobjects():
         if dq.cache.eviction_policy != 'none' or ix.cache.eviction_policy != 'none':
             bad.append('the Deque / Index handed out by a FanoutCache may evict items (eviction policy is not none)')
         clone = pickle.loads(pickle.dumps(fc))
-        if clone.directory != fc.directory or len(clone) != 6 or clone.get(0) != 0:
+        if clone.directory != fc.directory or len(clone) != 6 or [clone.get(i) for i in range(0, 12, 2)] != list(range(0, 12, 2)) \
+                or sorted(clone) != list(range(0, 12, 2)):
             bad.append('an unpickled FanoutCache is not the same cache (directory, contents)')
         clone.close()
         fc.close()
